@@ -17,6 +17,7 @@ import PS.Proofs.Mass
 import PS.Proofs.CfgBuild
 import PS.Proofs.CfgPrograms
 import PS.Proofs.CfgInfinite
+import PS.Proofs.CfgInfiniteDepth
 namespace PS.G
 open PS
 
@@ -546,6 +547,45 @@ open Example in
     the term that the statement forbids. -/
 theorem finding_C01_F2_infinite :
     genW (ruleSetInf P1) bad (startNT P1) = true ∧ wtITop P1 bad = false := by decide
+
+/-- **The unbounded specification is "well typed at some depth bound"**: `wtI` is the union over
+    all depth bounds `D` of the bounded specification `wt` (with variables allowed at every
+    level, `unb P D = { P with maxDepth := D, minVarDepth := 0 }`). -/
+theorem C01_infinite_wt_depth (P : Params) (vis : Sym × Nat → Option (Sym × Nat)) (t : Prog)
+    (parent : Option (Sym × Nat)) (ty : Ty) :
+    wtI P vis t parent ty = true ↔ ∃ D, wt (unb P D) vis t 0 parent ty = true :=
+  wtI_iff_exists_depth P vis t parent ty
+
+open Example in
+/-- non-vacuity: `deep` (depth 6) is well typed with bound 7, not with bound 6 -/
+example : wtI P2 some deep none int = true ∧ wt (unb P2 7) some deep 0 none int = true ∧
+    wt (unb P2 6) some deep 0 none int = false := by decide
+
+/-- **The grammar of `CFG.infinite` is the union of the depth-bounded grammars** (built with
+    `min_variable_depth = 0`): a program is a member iff it is a member of
+    `CFG.depth_constraint(…, max_depth = D, min_variable_depth = 0, …)` for some `D`. -/
+theorem C01_infinite_union (P : Params) (fuel : Nat) (G : CFG) (h : buildTableInf P fuel = some G)
+    (t : Prog) :
+    contains G t = true ↔
+      ∃ D Gd, buildTable (unb P D) (buildFuel (unb P D)) = some Gd ∧ contains Gd t = true := by
+  rw [C01_infinite_lang P fuel G h t, C01_infinite_wt_depth]
+  constructor
+  · rintro ⟨D, hw⟩
+    rcases C01_construction (unb P D) (buildFuel (unb P D)) (Nat.le_refl _) with ⟨Gd, hb, hl⟩ | ⟨_, hl⟩
+    · exact ⟨D, Gd, hb, by rw [hl t]; exact hw⟩
+    · have := hl t
+      change wt (unb P D) (effParent P) t 0 none P.request.returns = false at this
+      rw [this] at hw; cases hw
+  · rintro ⟨D, Gd, hb, hc⟩
+    refine ⟨D, ?_⟩
+    rw [C01_construction_lang (unb P D) _ Gd hb t] at hc
+    exact hc
+
+open Example in
+/-- non-vacuity: `good` (depth 3) is in the depth-3 grammar of `P2`, not in the depth-2 one -/
+example : ((buildTable (unb P2 3) (buildFuel (unb P2 3))).map (fun Gd => contains Gd good)) = some true ∧
+    ((buildTable (unb P2 2) (buildFuel (unb P2 2))).map (fun Gd => contains Gd good)) = some false := by
+  decide
 
 /-- **C01 for `CFG.infinite` — clean**: the grammar starts at the start symbol of the type
     request, which is a non-terminal and the first key of the table; non-terminals and symbols
